@@ -226,7 +226,8 @@ class LWorld(H.World):
 
 EVENTS = [("connect", "ok"), ("connect", "refused"), ("success",), ("failure",), ("stream_error", "conflict"),
           ("stream_error", "ack"), ("stream_error", "xml-not-well-formed"), ("peer_close",), ("disconnect_req",),
-          ("tick",), ("pong",), ("send",)]
+          ("tick",), ("pong",), ("send",), ("late_socket_error",), ("disconnect_then_send",),
+          ("disconnect_then_connect",)]
 
 
 class St(object):
@@ -315,6 +316,28 @@ def apply_event(s, ev):
         if ids:
             server_stanza(ProtocolTreeNode("iq", {"type": "result", "id": ids[0], "from": "s.whatsapp.net"}))
         sc.run_phase([], timeout=30)
+    elif kind == "late_socket_error":
+        # a second error report of a dispatcher whose connection is already down (e.g. the reader and a writer
+        # of the socket dispatcher both hit the closed socket)
+        d = w.dispatchers[i]
+        sc.run_phase([("iothread", lambda: d.connectionCallbacks.onConnectionError(IOError("socket closed")))], timeout=30)
+    elif kind == "disconnect_then_send":
+        def dts():
+            w.app.disconnect()
+            try:
+                w.app.toLower(H.NodeEntity(H.out_stanza(1, "y")))
+                w.obs.append(("app-send", "ok"))
+            except Exception as e:
+                w.obs.append(("app-send", "raised", type(e).__name__))
+        sc.run_phase([("appthread", dts)], timeout=30)
+    elif kind == "disconnect_then_connect":
+        # the application (from its own thread) drops the connection and asks for a new one right away
+        def dtc():
+            w.app.disconnect()
+            w.connect_mode = "ok"
+            w.obs.append(("app-connect",))
+            w.app.connect()
+        sc.run_phase([("appthread", dtc)], timeout=30)
     elif kind == "send":
         def snd():
             try:
@@ -365,7 +388,9 @@ def enabled(s, hist):
             continue
         if k == "pong" and not outstanding_pings(w, i):
             continue
-        if k in ("peer_close", "disconnect_req") and not up:
+        if k in ("peer_close", "disconnect_req", "disconnect_then_send", "disconnect_then_connect") and not up:
+            continue
+        if k == "late_socket_error" and (up or i < 0):
             continue
         if k == "tick" and not (up and ping_thread_alive(s)):
             continue
@@ -390,8 +415,12 @@ def check(s, hist, reconnect=True):
     v = []
     case = {"history": [list(e) for e in hist], "reconnect": reconnect}
 
+    # histories in which the application reconnects from its own thread while the deferred 'disconnected' event of
+    # the old connection is still queued share one root cause (recorded finding): tag their signatures
+    tag = ":app-thread-reconnect" if any(e[0] == "disconnect_then_connect" for e in hist) else ""
+
     def bad(sig, what, detail=None):
-        v.append(("C16:" + sig, what, case, detail))
+        v.append(("C16:" + sig + tag, what, case, detail))
     if s.error is not None:
         bad("stuck:%s" % type(s.error).__name__, "execution did not reach quiescence: %s" % s.error)
         return v
@@ -486,7 +515,7 @@ def check(s, hist, reconnect=True):
                 "after stream error '%s' with reconnect option %s the client %s" % (ev[1], reconnect, "reconnected" if reconnected else "did not reconnect"),
                 {"segment": seg})
     for k, ev in enumerate(hist):
-        if ev[0] in ("failure", "peer_close", "disconnect_req") or (ev[0] == "connect" and ev[1] == "refused"):
+        if ev[0] in ("failure", "peer_close", "disconnect_req", "disconnect_then_send", "late_socket_error") or (ev[0] == "connect" and ev[1] == "refused"):
             seg = segs[k] if k < len(segs) else []
             # a reconnect pending from an earlier stream error whose close had not completed does not exist: every event is run to quiescence
             if any(o[0] == "tcp-connect" for o in seg) and ev[0] != "connect":
